@@ -71,6 +71,9 @@ func c10JudgeFloat(op string, dt tensor.Dtype, x, got, slope float64) (string, s
 		ref = x
 		if x < 0 {
 			ref = roundTo(dt, slope*x)
+		} else if !math.IsNaN(x) && (got != x || math.Signbit(got) != math.Signbit(x)) {
+			// f(x) = x for x >= 0, whatever the slope is (also an infinite or NaN slope, also for ±0)
+			return fmt.Sprintf("PRelu(%v, slope %v) = %v, want the input itself", x, slope, got), ""
 		}
 	} else {
 		ref = roundTo(dt, c10Funcs[op](x))
@@ -176,7 +179,7 @@ func c10Gen(rt *rapid.T) c10Case {
 				c.valid = false
 			}
 		}
-		c.slope = genTensor(c.dt, ss, false).Draw(rt, "slope")
+		c.slope = genTensor(c.dt, ss, rapid.Bool().Draw(rt, "slopeSpecial")).Draw(rt, "slope")
 	}
 	return c
 }
